@@ -693,6 +693,16 @@ impl Direct {
                 // a ring wiped by a crash is still a handle: sync() shows 0
                 env.drain(r);
             }
+        });
+        self.env = Some(env);
+        // a final crash: what the run made durable (ring fsyncs included) is compared with the twin's
+        // crash image; the wiped rings must stay silent
+        self.crash();
+        let mut env = self.env.take().unwrap();
+        self.entered(|| {
+            for r in env.alive_rings() {
+                env.drain(r);
+            }
             rec::emit(env.end_event());
             env.close_all();
         });
@@ -987,6 +997,10 @@ fn gen_cmd(rng: &mut SmallRng, sh: &Shadow, cfg: &RunCfg, allow_crash: bool, sim
             .collect();
         if !dups.is_empty() && rng.random_range(0..100) < 22 {
             return dups[rng.random_range(0..dups.len())].0.clone();
+        }
+        if sh.fopen[f - 1] && !sh.fwritable[f - 1] && rng.random_range(0..2) == 0 {
+            // fsync through a read-only handle: it flushes the file, whoever wrote it
+            return Cmd::Push { r, tag: 0, kind: "fsync".into(), f, off: 0, bytes: vec![], len: 0, tgt: 0, bad: false };
         }
         if k < 30 {
             let n = rng.random_range(1..=4);
@@ -1352,6 +1366,19 @@ fn random_sim(rng: &mut SmallRng, cfg: &RunCfg, steps: usize, stall_ms: u64, exi
     // end phase: let every latency elapse, then drain and report
     let extra = cfg.lat_hi.div_ceil(cfg.tick_us) + 1;
     for _ in 0..extra {
+        step(&mut sim, &mut k, &sh);
+    }
+    // drain every ring the consumer still holds, then a final crash + bounce: what the run made durable
+    // (ring fsyncs included) is compared with the twin's crash image by the new incarnation
+    {
+        let held: Vec<usize> = (1..=shd.rings.len()).filter(|r| shd.rings[*r - 1] || shd.zombie[*r - 1]).collect();
+        sh.borrow_mut().cmds.extend(held.into_iter().map(|r| Cmd::Drain { r }));
+        step(&mut sim, &mut k, &sh);
+        sim.crash("h");
+        p.borrow().twin.lock().unwrap().crash();
+        p.borrow_mut().on_crash();
+        sh.borrow_mut().cmds.clear();
+        sim.bounce("h");
         step(&mut sim, &mut k, &sh);
     }
     sh.borrow_mut().finish = true;
